@@ -8,3 +8,6 @@ open Neutrino.Store
 #print axioms C07_refused
 #print axioms C07_failed_append_unchanged
 #print axioms C07_failed_filter_append_unchanged
+#print axioms C07_index_layout
+#print axioms C07_index_layout_needs_disjoint
+#print axioms C07_index_source_shape
